@@ -250,6 +250,12 @@ pub struct World {
     pub keep_wire_log: bool,
     pub counters: BTreeMap<String, u64>,
     pub prop: &'static str,
+    /// record every hpke_seal / aead_seal the committer performs while building a commit
+    pub record_crypto: bool,
+    pub last_commit_hpke: Vec<HpkeSealRec>,
+    pub last_commit_aead: Vec<AeadSealRec>,
+    /// last key package generated by each party (encoded MlsMessage)
+    pub last_kp: BTreeMap<usize, Vec<u8>>,
 }
 
 #[derive(Clone, Debug, Default)]
@@ -296,6 +302,10 @@ impl World {
             keep_wire_log: false,
             counters: BTreeMap::new(),
             prop,
+            record_crypto: false,
+            last_commit_hpke: vec![],
+            last_commit_aead: vec![],
+            last_kp: BTreeMap::new(),
         }
     }
 
@@ -465,6 +475,7 @@ impl World {
         })?;
         let bytes = kp.to_bytes().map_err(|e| OpErr::Mls(format!("{e:?}")))?;
         self.log_wire("key_package", &bytes);
+        self.last_kp.insert(p, bytes);
         Ok(kp)
     }
 
@@ -611,6 +622,11 @@ impl World {
         };
         let new_id2 = new_id.clone();
         let spec2 = spec.clone();
+        let record = self.record_crypto;
+        let party = &mut self.parties[committer];
+        if record {
+            party.crypto.log.start();
+        }
         let r = guard(|| {
             let mut b = party.group.as_mut().unwrap().commit_builder();
             for kp in kps {
@@ -638,6 +654,11 @@ impl World {
             }
             b.authenticated_data(spec2.aad.clone()).commit_time(t).build()
         });
+        if record {
+            let (h, a) = self.parties[committer].crypto.log.stop();
+            self.last_commit_hpke = h;
+            self.last_commit_aead = a;
+        }
         if r.is_ok() {
             if let Some(ni) = new_id {
                 self.parties[committer].pending_identity = Some(ni);
@@ -872,7 +893,11 @@ impl World {
             (gi.to_bytes().expect("gi"), tree)
         };
         self.log_wire("group_info", &gi_bytes);
+        let record = self.record_crypto;
         let party = &mut self.parties[joiner];
+        if record {
+            party.crypto.log.start();
+        }
         let r = guard(|| {
             let gi = MlsMessage::from_bytes(&gi_bytes)?;
             let mut b = party.client.external_commit_builder()?.commit_time(t);
@@ -884,6 +909,11 @@ impl World {
             }
             b.build(gi)
         });
+        if record {
+            let (h, a) = self.parties[joiner].crypto.log.stop();
+            self.last_commit_hpke = h;
+            self.last_commit_aead = a;
+        }
         let (g, commit) = match r {
             Ok(x) => x,
             Err(e) if e.is_panic() => return Err(panic_failure(prop, "external_commit_builder.build", &e)),
@@ -1064,4 +1094,21 @@ pub fn permutation(n: usize, seed: u64) -> Vec<usize> {
         v.swap(i, j);
     }
     v
+}
+
+impl World {
+    /// `write_to_storage` at party p.
+    pub fn save(&mut self, p: usize) -> Result<(), OpErr> {
+        let party = &mut self.parties[p];
+        guard(|| party.gm().write_to_storage())
+    }
+
+    /// Drop the in-memory group of party p and load it again from its storage.
+    pub fn reload(&mut self, p: usize) -> Result<(), OpErr> {
+        let gid = self.group_id.clone();
+        let party = &mut self.parties[p];
+        let g = guard(|| party.client.load_group(&gid))?;
+        party.group = Some(g);
+        Ok(())
+    }
 }
